@@ -30,12 +30,12 @@ Lemma upd_other c i t j : j <> i -> upd c i t j = c j.
 Proof. unfold upd. intros H. apply Nat.eqb_neq in H. rewrite H. reflexivity. Qed.
 
 (* ---------- the invariant ---------- *)
-Definition I1 (G : guard_map) (c : config) : Prop :=
-  forall i, check G (hx (c i)) (hr (c i)) (code (c i)) = true.
+Definition I1 (G : guard_map) (O : owner_map) (c : config) : Prop :=
+  forall i, check G O (hx (c i)) (hr (c i)) (code (c i)) = true.
 Definition I2 (c : config) : Prop :=
   forall i j m, i <> j -> In m (hx (c i)) -> ~ In m (hx (c j)) /\ ~ In m (hr (c j)).
 
-Lemma I1_upd G c i t : I1 G c -> check G (hx t) (hr t) (code t) = true -> I1 G (upd c i t).
+Lemma I1_upd G O c i t : I1 G O c -> check G O (hx t) (hr t) (code t) = true -> I1 G O (upd c i t).
 Proof.
   intros H Ht k. destruct (Nat.eq_dec k i) as [->|Hne]; [rewrite upd_same; exact Ht|rewrite upd_other by exact Hne; apply H].
 Qed.
@@ -52,8 +52,8 @@ Proof.
   - rewrite upd_other in Hin by exact Ha. rewrite upd_other by exact Hb. apply (H a b m Hab Hin).
 Qed.
 
-Lemma step_inv G bodies c c' :
-  forallb (check G [] []) bodies = true -> I1 G c -> I2 c -> step bodies c c' -> I1 G c' /\ I2 c'.
+Lemma step_inv G O bodies c c' :
+  forallb (check G O [] []) bodies = true -> I1 G O c -> I2 c -> step bodies c c' -> I1 G O c' /\ I2 c'.
 Proof.
   intros WB H1 H2 St. destruct St as [i m r E Free|i m r E Free|i m r E Held|i m r E Held|i f r E|i f r E|i f r E|i f r E|i f r E|i f r E|i b E Ex Er Hb];
     pose proof (H1 i) as C; rewrite E in C; cbn [check] in C.
@@ -98,61 +98,70 @@ Proof.
     + apply I2_upd_shrink; [exact H2| |]; cbn [hx hr]; intros x [].
 Qed.
 
-Lemma idle_inv G c : idle c -> I1 G c /\ I2 c.
+Lemma idle_inv G O c : idle c -> I1 G O c /\ I2 c.
 Proof.
   intros H. split.
   - intros i. rewrite (H i). reflexivity.
   - intros i j m _ Hin. rewrite (H i) in Hin. destruct Hin.
 Qed.
 
-Lemma steps_inv G bodies c c' :
-  forallb (check G [] []) bodies = true -> I1 G c -> I2 c -> steps bodies c c' -> I1 G c' /\ I2 c'.
+Lemma steps_inv G O bodies c c' :
+  forallb (check G O [] []) bodies = true -> I1 G O c -> I2 c -> steps bodies c c' -> I1 G O c' /\ I2 c'.
 Proof.
   intros WB H1 H2 St. induction St as [|c c' c'' _ IH S]; [auto|].
   destruct (IH H1 H2) as [A B]. eapply step_inv; eauto.
 Qed.
 
-Lemma writes_held G X R a r f : check G X R (a :: r) = true -> writes a f = true ->
-  exists m, guard_of G f = Some m /\ In m X.
+Lemma writes_held G O X R a r f : check G O X R (a :: r) = true -> writes a f = true ->
+  (exists m, guard_of G f = Some m /\ In m X) /\ (forall t, owner_of O f = Some t -> In t X).
 Proof.
   intros C W. destruct a; cbn in W; try discriminate; apply String.eqb_eq in W; subst f0;
     cbn [check] in C; apply andb_true_iff in C; destruct C as [C _];
-    destruct (guard_of G f) as [m|]; try discriminate; exists m; split; try reflexivity; apply mem_in, C.
+    apply andb_true_iff in C; destruct C as [C1 C2]; (split;
+    [destruct (guard_of G f) as [m|]; try discriminate; exists m; split; try reflexivity; apply mem_in, C1
+    |intros t Ht; unfold owner_ok in C2; rewrite Ht in C2; apply mem_in, C2]).
 Qed.
 
-Lemma accesses_held G X R a r f : check G X R (a :: r) = true -> accesses a f = true ->
-  exists m, guard_of G f = Some m /\ (In m X \/ In m R).
+Lemma accesses_held G O X R a r f : check G O X R (a :: r) = true -> accesses a f = true ->
+  (exists m, guard_of G f = Some m /\ (In m X \/ In m R)) \/ (exists t, owner_of O f = Some t /\ In t X).
 Proof.
   intros C W. destruct a; cbn in W; try discriminate; apply String.eqb_eq in W; subst f0;
-    cbn [check] in C; apply andb_true_iff in C; destruct C as [C _];
-    destruct (guard_of G f) as [m|]; try discriminate; exists m; split; try reflexivity.
-  - apply orb_true_iff in C. destruct C as [C|C]; [left|right]; apply mem_in, C.
-  - left. apply mem_in, C.
-  - left. apply mem_in, C.
+    cbn [check] in C; apply andb_true_iff in C; destruct C as [C _].
+  - apply orb_true_iff in C. destruct C as [C|C].
+    + left. destruct (guard_of G f) as [m|]; try discriminate. exists m. split; [reflexivity|].
+      apply orb_true_iff in C. destruct C as [C|C]; [left|right]; apply mem_in, C.
+    + right. unfold owner_held in C. destruct (owner_of O f) as [t|]; try discriminate. exists t. split; [reflexivity|apply mem_in, C].
+  - left. apply andb_true_iff in C. destruct C as [C _].
+    destruct (guard_of G f) as [m|]; try discriminate. exists m. split; [reflexivity|left; apply mem_in, C].
+  - left. apply andb_true_iff in C. destruct C as [C _].
+    destruct (guard_of G f) as [m|]; try discriminate. exists m. split; [reflexivity|left; apply mem_in, C].
 Qed.
 
-Lemma inv_not_racy G c : I1 G c -> I2 c -> ~ racy G c.
+Lemma inv_not_racy G O c : I1 G O c -> I2 c -> ~ racy G c.
 Proof.
   intros H1 H2 [i [j [f [a [ra [b [rb [Hne [_ [Ea [Eb [W A]]]]]]]]]]]].
   pose proof (H1 i) as Ci. rewrite Ea in Ci. pose proof (H1 j) as Cj. rewrite Eb in Cj.
-  destruct (writes_held _ _ _ _ _ _ Ci W) as [m [Gm Hm]].
-  destruct (accesses_held _ _ _ _ _ _ Cj A) as [m' [Gm' Hm']]. rewrite Gm in Gm'. inversion Gm'; subst m'.
-  destruct (H2 i j m Hne Hm) as [N1 N2]. destruct Hm'; contradiction.
+  destruct (writes_held _ _ _ _ _ _ _ Ci W) as [[m [Gm Hm]] Own].
+  destruct (accesses_held _ _ _ _ _ _ _ Cj A) as [[m' [Gm' Hm']]|[t [Ot Ht]]].
+  - rewrite Gm in Gm'. inversion Gm'; subst m'.
+    destruct (H2 i j m Hne Hm) as [N1 N2]. destruct Hm'; contradiction.
+  - (* the reader is the owner goroutine: the writer would have to be it too *)
+    destruct (H2 i j t Hne (Own t Ot)) as [N1 _]. contradiction.
 Qed.
 
 (* lockset_sound: if every (inlined) function body passes the checker, no state reachable
    from the idle configuration has two goroutines at conflicting accesses to a guarded field *)
-Lemma lockset_sound_bodies G bodies c0 c :
-  forallb (check G [] []) bodies = true -> idle c0 -> steps bodies c0 c -> ~ racy G c.
+Lemma lockset_sound_bodies G O bodies c0 c :
+  forallb (check G O [] []) bodies = true -> idle c0 -> steps bodies c0 c -> ~ racy G c.
 Proof.
-  intros WB Hi St. destruct (idle_inv G c0 Hi) as [A B].
-  destruct (steps_inv G bodies c0 c WB A B St) as [A' B']. apply inv_not_racy; assumption.
+  intros WB Hi St. destruct (idle_inv G O c0 Hi) as [A B].
+  destruct (steps_inv G O bodies c0 c WB A B St) as [A' B']. apply (inv_not_racy G O); assumption.
 Qed.
 
 Lemma lockset_sound G P bodies c0 c :
   well_locked G P = true -> inline_all fuel0 P = Some bodies -> idle c0 -> steps bodies c0 c -> ~ racy G c.
 Proof.
-  unfold well_locked. intros W E. rewrite E in W. apply lockset_sound_bodies. exact W.
+  unfold well_locked. intros W E. rewrite E in W. apply (lockset_sound_bodies G []). exact W.
 Qed.
 
 (* while a mutex is held exclusively nobody else holds it in any mode, and a mutex held
@@ -161,8 +170,8 @@ Lemma mutual_exclusion G P bodies c0 c :
   well_locked G P = true -> inline_all fuel0 P = Some bodies -> idle c0 -> steps bodies c0 c ->
   forall i j m, i <> j -> In m (hx (c i)) -> ~ In m (hx (c j)) /\ ~ In m (hr (c j)).
 Proof.
-  unfold well_locked. intros W E Hi St. rewrite E in W. destruct (idle_inv G c0 Hi) as [A B].
-  destruct (steps_inv G bodies c0 c W A B St) as [_ B']. exact B'.
+  unfold well_locked. intros W E Hi St. rewrite E in W. destruct (idle_inv G [] c0 Hi) as [A B].
+  destruct (steps_inv G [] bodies c0 c W A B St) as [_ B']. exact B'.
 Qed.
 
 (* ---------- handlers_serial ---------- *)
@@ -499,19 +508,19 @@ Proof.
 Qed.
 
 (* ---------- entry points ---------- *)
-Lemma lockset_sound_from G P entries bodies c0 c :
-  well_locked_from G P entries = true -> inline_entries fuel0 P entries = Some bodies ->
+Lemma lockset_sound_from G O P entries bodies c0 c :
+  well_locked_from G O P entries = true -> inline_entries fuel0 P entries = Some bodies ->
   idle c0 -> steps bodies c0 c -> ~ racy G c.
 Proof.
-  unfold well_locked_from. intros W E. rewrite E in W. apply lockset_sound_bodies. exact W.
+  unfold well_locked_from. intros W E. rewrite E in W. apply (lockset_sound_bodies G O). exact W.
 Qed.
 
-Lemma mutual_exclusion_from G P entries bodies c0 c :
-  well_locked_from G P entries = true -> inline_entries fuel0 P entries = Some bodies -> idle c0 -> steps bodies c0 c ->
+Lemma mutual_exclusion_from G O P entries bodies c0 c :
+  well_locked_from G O P entries = true -> inline_entries fuel0 P entries = Some bodies -> idle c0 -> steps bodies c0 c ->
   forall i j m, i <> j -> In m (hx (c i)) -> ~ In m (hx (c j)) /\ ~ In m (hr (c j)).
 Proof.
-  unfold well_locked_from. intros W E Hi St. rewrite E in W. destruct (idle_inv G c0 Hi) as [A B].
-  destruct (steps_inv G bodies c0 c W A B St) as [_ B']. exact B'.
+  unfold well_locked_from. intros W E Hi St. rewrite E in W. destruct (idle_inv G O c0 Hi) as [A B].
+  destruct (steps_inv G O bodies c0 c W A B St) as [_ B']. exact B'.
 Qed.
 
 (* ---------- recursive RLock ---------- *)
